@@ -9,7 +9,7 @@ RULE = ("documents: every symbol string up to MaxLen over a 17-symbol alphabet (
         "an error or valid JSON, for representable trees the bytes of encoding/json and a faithful round trip; the same through the module's functions as a script calls them: MarshalIndent and NoEscape (bytes of encoding/json), Quote / NoQuote (valid JSON or an error), RawMessage bare and nested (the raw bytes embedded); "
         "near-valid documents: 14 valid skeleton documents (members, elements, nesting, white space, numbers, escapes) changed by every single-symbol insertion, deletion and replacement (thorough: every pair of edits); "
         "documents beyond the recogniser (nesting depth around 10000, long / extreme numbers, long strings, escapes, stray bytes): encoding/json alone is the oracle; "
-        "non-trivial = documents the recogniser accepts, and all trees")
+        "non-trivial = documents the recogniser accepts, and all trees; near part with the non-JSON white-space symbols form feed and 0xA0")
 
 def leaves(t):
     return [t[k] for k in ("v", "a", "b") if k in t]
